@@ -657,6 +657,13 @@ def sort_frames(maxrow):
                 for c1 in itertools.product(SORT_POOLS[k1], repeat=n):
                     for c2 in itertools.product(SORT_POOLS[k2][:2], repeat=n):
                         yield [("a", k1, enc(list(c1))), ("b", k2, enc(list(c2)))]
+    # larger tie-heavy frames: an unstable sorting algorithm only shows beyond ~16 rows
+    import random
+    for k1 in ("int", "float", "str", "bool"):
+        for seed_ in range(2):
+            rnd = random.Random(500 + seed_)
+            pool = SORT_POOLS[k1][:2]
+            yield [("a", k1, enc([pool[rnd.randrange(2)] for _ in range(40)])), ("b", "int", enc([rnd.randrange(2) for _ in range(40)]))]
 
 
 def build_sort(spec):
